@@ -128,6 +128,17 @@ func (l *SimListener) Dial(name string) *SimConn {
 	return client
 }
 
+// Pipe makes a connected pair without going through a listener (a session the application starts itself).
+func (n *Net) Pipe(name string) (client, server *SimConn) {
+	n.nconn++
+	c2s := &pipe{cap: n.BufSize}
+	s2c := &pipe{cap: n.BufSize}
+	client = &SimConn{net: n, r: s2c, w: c2s, local: simAddr(name), remote: simAddr("direct"), Name: name + "/client"}
+	server = &SimConn{net: n, r: c2s, w: s2c, local: simAddr("direct"), remote: simAddr(name), Name: name + "/server"}
+	client.peer, server.peer = server, client
+	return client, server
+}
+
 // pipe is one direction of a connection.
 type pipe struct {
 	buf      []byte
